@@ -150,7 +150,10 @@ class Unit:
                         continue
                     fid = self.first_call_target(body[0])
                     if fid is None:
-                        raise ExtractionBreak("verif_use::%s: no call found" % f["name"])
+                        # no call: the wrapper's body is itself library text (a macro expansion): extract the wrapper
+                        fid = f["id"]
+                        self.self_wrappers = getattr(self, "self_wrappers", set())
+                        self.self_wrappers.add(f["name"])
                     did = ast.D.get(fid, {}).get("def", fid)
                     if did in aliases and aliases[did] != f["name"]:
                         # two wrappers naming the same function: keep first, remember synonym
